@@ -50,14 +50,36 @@ def sig(prop, clause, op, cfg, extra=""):
     return f"{prop}:{clause}:{kind}{how}:N{cfg.n}{(':' + extra) if extra else ''}"
 
 
-def make_chain_run(modname, observe_name, extra_ops=None):
+def late_faults(cfg, model):
+    """Requests that are refused only after the block / entry has been looked at; a later valid call in
+    the same context must find everything as if they had never been made."""
+    out = []
+    full = len(model.live) >= model.n
+    for t in cfg.types:
+        if t not in model.live and not full:
+            out.append(("bad", "add", t, "comment_long", 0))
+            from . import c07
+            if t in c07.LABELLED:
+                out.append(("bad", "add", t, "label_long", 1))
+        elif t in model.live:
+            out.append(("bad", "replace", t, "comment_noncp", 0))
+    return out
+
+
+def make_chain_run(modname, observe_name, extra_ops=None, faults=False):
     def _chain(cfg_w):
         import importlib
 
         mod = importlib.import_module(modname)
         cfg = kdriver.Config.from_witness(cfg_w)
         acc = core.Acc()
-        kdriver.explore_chains(cfg, getattr(mod, observe_name), acc, depth=3, extra_ops=extra_ops)
+        if faults:
+            from . import c07
+
+            kdriver.explore_chains(cfg, getattr(mod, observe_name), acc, depth=3, extra_ops=extra_ops, fault_call=c07.call_fault,
+                                   fault_ops=late_faults)
+        else:
+            kdriver.explore_chains(cfg, getattr(mod, observe_name), acc, depth=3, extra_ops=extra_ops)
         return acc
 
     return _chain
@@ -85,5 +107,7 @@ def env_rotate():
 
 def replay_any(w, observe):
     if w.get("chain"):
-        return kdriver.replay_chain(w, observe)
+        from . import c07
+
+        return kdriver.replay_chain(w, observe, c07.call_fault)
     return replay(w, observe)
